@@ -34,13 +34,15 @@ def configs_for(prop, tier):
                        bound='1 portfolio holding A (1 symbolic builder fill), 1 pending order in A, one update at a symbolic instant'))
         out.append(cfg('update_2pending', held={'p1': {}}, pending=[('p1', 'EQ:A'), ('p1', 'EQ:B')], weight=500, twins=upd_tw,
                        bound='1 empty portfolio, 2 pending orders (A, B) of symbolic signed size, one update at a symbolic instant'))
-        out.append(cfg('update_2pending_same_asset_held2', held=H1b, pending=[('p1', 'EQ:A'), ('p1', 'EQ:A')], weight=900, twins=upd_tw,
-                       bound='1 portfolio holding A after 2 symbolic builder fills (partial close / flip included), 2 pending orders in A'))
         out.append(cfg('update_zero_fee', held=H1, pending=[('p1', 'EQ:B')], fee='zero', weight=200, twins=upd_tw,
                        bound='ZeroFeeModel; 1 portfolio holding A, 1 pending order in B'))
-        out.append(cfg('update_2portfolios', ports=2, held=H3, pending=[('p1', 'EQ:B'), ('p2', 'EQ:B')], weight=900, twins=upd_tw,
-                       bound='2 portfolios (p1 holds A, p2 holds B), one pending order each, one update'))
+        out.append(cfg('update_2portfolios', ports=2, held={'p1': {'EQ:A': 1}, 'p2': {}}, pending=[('p1', 'EQ:A'), ('p2', 'EQ:B')], weight=900, twins=upd_tw,
+                       bound='2 portfolios (p1 holds A, p2 empty), one pending order each, one update'))
         if tier == 'thorough':
+            out.append(cfg('update_2pending_same_asset_held2', held=H1b, pending=[('p1', 'EQ:A'), ('p1', 'EQ:A')], weight=3000, twins=upd_tw, validate_every=8,
+                           bound='1 portfolio holding A after 2 symbolic builder fills (partial close / flip included), 2 pending orders in A'))
+            out.append(cfg('update_2portfolios_both_holding', ports=2, held=H3, pending=[('p1', 'EQ:B'), ('p2', 'EQ:B')], weight=3000, twins=upd_tw, validate_every=8,
+                           bound='2 portfolios (p1 holds A, p2 holds B), one pending order each, one update'))
             out.append(cfg('update_3pending', held=H2, pending=[('p1', 'EQ:A'), ('p1', 'EQ:B'), ('p1', 'EQ:A')], weight=5000, twins=upd_tw, validate_every=10,
                            bound='1 portfolio holding A and B, 3 pending orders (A, B, A), one update'))
             out.append(cfg('two_updates_1pending', held=H1, pending=[('p1', 'EQ:A')], op='two_updates', weight=2500, twins=upd_tw, validate_every=5,
@@ -308,7 +310,7 @@ class BrokerStep(Harness):
         for p in (pids or self.pids):
             self._same_port(L, b['ports'][p], a['ports'][p], '%s:%s' % (tag, p), obl)
 
-    def _same_port(self, L, pb, pa, tag, obl, cash=True, holdings=True, queue=True, history=True, marks=True):
+    def _same_port(self, L, pb, pa, tag, obl, cash=True, holdings=True, queue=True, history=True, marks=True, equity=True):
         if cash:
             obl.append((tag + ':cash_unchanged', L.ne(pa['cash'], pb['cash'])))
         if holdings:
@@ -319,7 +321,9 @@ class BrokerStep(Harness):
                     diffs = [L.ne(pa['holdings'][x][k], pb['holdings'][x][k]) for k in keys]
                     obl.append(('%s:holding_report_unchanged[%s]' % (tag, x), L.Or(*diffs)))
             if marks:
-                obl.append((tag + ':market_value_and_equity_unchanged', L.Or(L.ne(pa['mv'], pb['mv']), L.ne(pa['eq'], pb['eq']))))
+                obl.append((tag + ':market_value_unchanged', L.ne(pa['mv'], pb['mv'])))
+                if equity:
+                    obl.append((tag + ':equity_unchanged', L.ne(pa['eq'], pb['eq'])))
         if queue:
             obl.append((tag + ':pending_orders_unchanged', L.bool(len(pa['queue']) != len(pb['queue']) or any(x is not y for x, y in zip(pa['queue'], pb['queue'])))))
         if history:
@@ -562,7 +566,8 @@ class BrokerStep(Harness):
         obl.append(('C01:%s:master_moves_by_amount' % tag, L.ne(a['master'], R(b['master']) - sign * R(amt))))
         obl.append(('C01:%s:portfolio_moves_by_amount' % tag, L.ne(pa['cash'], R(pb['cash']) + sign * R(amt))))
         obl.append(('C01:%s:transfer_is_zero_sum' % tag, L.ne(R(a['master']) + R(pa['cash']), R(b['master']) + R(pb['cash']))))
-        self._same_port(L, pb, pa, 'C01:%s:%s' % (tag, p), obl, cash=False, history=False)
+        self._same_port(L, pb, pa, 'C01:%s:%s' % (tag, p), obl, cash=False, history=False, equity=False)
+        obl.append(('C01:%s:equity_moves_with_cash_only' % tag, L.ne(pa['eq'], R(pb['eq']) + sign * R(amt))))
         new = pa['history'][len(pb['history']):]
         obl.append(('C01:%s:exactly_one_history_event' % tag, L.bool(len(new) != 1)))
         if len(new) == 1:
